@@ -5,17 +5,20 @@ UPDATE = "_ZN10OP2Utility7Archive19AdaptiveHuffmanTree15UpdateCodeCountEt"
 TREECTOR = "_ZN10OP2Utility7Archive19AdaptiveHuffmanTreeC2Et"
 STUBS = {GETNEXT: "stub_GetNextCode_rec", UPDATE: "stub_UpdateCodeCount", TREECTOR: "stub_TreeCtor"}
 
-ASSUMPTIONS = ["compositional: the adaptive Huffman layer (GetNextCode + UpdateCodeCount) is replaced at IR level by its contract from C15 - each call yields ANY code below 314 after consuming 1..12 bits - "
+ASSUMPTIONS = ["ring-index queries: DecompressCode is replaced (IR-level redirect in the solver; weakened symbol + harness definition in the native replay build) by its index contract - appends 1..60 bytes at the write index modulo 4096, "
+               "reports end of stream at will; the ring indices of the pre-state are ARBITRARY below 4096 (one-step induction over fill histories)",
+               "compositional: the adaptive Huffman layer (GetNextCode + UpdateCodeCount) is replaced at IR level by its contract from C15 - each call yields ANY code below 314 after consuming 1..12 bits - "
                "so the LZ layer is decided for every code sequence, not only those a particular tree would produce; the tree itself is C15's subject",
                "bit reader: arbitrary valid state over up to 4 symbolic bytes (one-step induction); position prefix table: all 256 prefixes",
                "whole-decoder queries start from the fresh decoder over INLEN symbolic input bytes and compare with a reference LZ decoder (4 KiB space-filled window) driven by the same code choices"]
-OUTSIDE = ["DecompressCode / GetData / GetInternalBuffer / FillDecompressBuffer, i.e. the LZ window layer and the drain interfaces: the 4 KiB window object defeats the encoding (see lib/props/C04.py for the measurements); "
-           "only the bit reader, the position prefix table and (in C15) the Huffman tree are decided",
+OUTSIDE = ["DecompressCode / GetData / CopyAvailableData, i.e. everything that reads or writes the CONTENTS of the 4 KiB window, and therefore 'output equals the reference decoder' and drain-size independence: "
+           "the window object defeats the encoding (see lib/props/C04.py for the measurements); decided are the bit reader, the position prefix table, GetRepeatOffset, the ring-INDEX arithmetic of FillDecompressBuffer and GetInternalBuffer, and (in C15) the Huffman tree",
            "the composition of the real 314-symbol tree with the LZ layer in one query (a single code on the real tree did not finish: three 627/941-entry tables indexed symbolically)",
            "inputs longer than INLEN bytes end-to-end (the number of codes grows with the input); drain sequences longer than two GetData calls / three GetInternalBuffer calls; the refill path after 4034 buffered bytes",
            "encoder-produced streams (no encoder exists in the library); VolFile::ExtractFileLzh (same GetInternalBuffer loop, over the file model) is not run"]
 LEVEL_TEXT = ("PARTIAL: bounded model checking of the two leaf components of the decoder against independent descriptions - the bit reader (one-step induction: MSB-first, zero-padded past the end, never outside its buffer) "
-              "and the LZHUF position prefix table (all 256 prefixes); the adaptive Huffman tree is C15. The LZ window layer and the drain interfaces could not be decided within the solver budget and are not claimed.")
+              "and the LZHUF position prefix table (all 256 prefixes) - plus the ring-index arithmetic of the window layer (fill bound, internal-buffer extents) by one-step induction with the window untouched; the adaptive Huffman tree is C15. "
+              "The window contents (DecompressCode, copying drain) could not be decided within the solver budget and are not claimed.")
 LEVEL_NOTE = "Native replay uses the same harness with the real Huffman layer disabled only in the solver; counterexamples of stubbed queries are replayed through the generated code when they cannot be replayed natively."
 
 
